@@ -320,6 +320,36 @@ func c16Ops() []c16Op {
 		}
 		return rsl.NewReferenceEntry(policy.PolicyRef, cid).Commit(m, false)
 	}, func(s gitstore.Storer) error { return policy.ReconcileStaging(s, false) }})
+	// reconcile staging: diverged (an unapplied staged change, and a change that landed directly in policy)
+	ops = append(ops, c16Op{"reconcile-staging", "diverged", func(m *memStore) error {
+		if err := stageAndApply(m, 1); err != nil {
+			return err
+		}
+		md3, err := c16Policy(3).stateMetadata()
+		if err != nil {
+			return err
+		}
+		if err := (&policy.State{Metadata: md3}).Commit(m, "stage", true, false); err != nil {
+			return err
+		}
+		md, err := c16Policy(2).stateMetadata()
+		if err != nil {
+			return err
+		}
+		st, err := md.WriteTree(m)
+		if err != nil {
+			return err
+		}
+		root, err := m.WriteTree([]gitstore.TreeEntry{{Path: "metadata", ID: st, Kind: gitstore.KindSubtree}})
+		if err != nil {
+			return err
+		}
+		cid, err := m.Commit(root, policy.PolicyRef, "direct", false)
+		if err != nil {
+			return err
+		}
+		return rsl.NewReferenceEntry(policy.PolicyRef, cid).Commit(m, false)
+	}, func(s gitstore.Storer) error { return policy.ReconcileStaging(s, false) }})
 	return ops
 }
 
@@ -420,6 +450,9 @@ func runC16(c *runCtx) error {
 		nCalls := f0.n
 		opTerm := map[string]string{"record-reference-entry": "OpEntry", "record-annotation": "OpEntry", "commit-staged-policy": "OpCommitWithEntry",
 			"commit-attestations": "OpCommitWithEntry", "apply-policy": "OpSetWithEntry", "reconcile-staging": "OpSetWithEntry"}[op.name]
+		if op.start == "diverged" {
+			opTerm = "(OpRebaseWithEntry 1)"
+		}
 		prior := before.refs[map[string]string{"commit-staged-policy": policy.PolicyStagingRef, "commit-attestations": attestations.Ref,
 			"apply-policy": policy.PolicyRef, "reconcile-staging": policy.PolicyStagingRef}[op.name]] != ""
 		for k := 1; k <= nCalls; k++ {
@@ -459,7 +492,10 @@ func runC16(c *runCtx) error {
 						refsOK = false
 					}
 					if mid.refTree[r] != before.refTree[r] && mid.refTree[r] != after.refTree[r] {
-						refsAtomic = false
+						// the staging rebase passes through the applied policy's commit (theorem C16_crash, p = 1)
+						if !(op.start == "diverged" && r == policy.PolicyStagingRef && len(f.trace) == 1 && mid.refs[r] == before.refs[policy.PolicyRef]) {
+							refsAtomic = false
+						}
 					}
 				}
 				noPartial := mid.logOK && isPrefix(before.log, mid.log) && isPrefix(mid.log, after.log)
